@@ -262,3 +262,14 @@ impl Report {
         }
     }
 }
+
+
+/// Runs one case; a panic that escapes the case (it was not expected and caught by the workload
+/// itself) is recorded as a violation of the property under test instead of killing the shard.
+pub fn guard_case(rep: &mut Report, case_no: u64, f: impl FnOnce(&mut Report)) {
+    let r = std::panic::catch_unwind(std::panic::AssertUnwindSafe(|| f(rep)));
+    if let Err(p) = r {
+        let msg = crate::ctx::payload_str(&*p);
+        rep.violation("unexpected_panic_in_case", &format!("a library call that the workload expects to succeed panicked: {}", msg), case_no, J::Null);
+    }
+}
